@@ -84,8 +84,8 @@ PROPS = {
                            dict(name="race-build cold starts: 8 runs per short-lived process, concurrent phase first (first-use races of lazily initialised shared state)",
                                 runs=2_400, wall=150, recheck=50, race=True, chunk=8, args=["-sim.order", "conc-first"])],
                "minimise_wall": 40},
-        thorough={"batches": [dict(name="plain-build schedules (result, snapshot, repeatability oracles)", runs=2_000_000, wall=1500, recheck=2000),
-                              dict(name="race-build schedules (race detector armed, sync-ignored hand-off)", runs=300_000, wall=1500, recheck=500, race=True),
+        thorough={"batches": [dict(name="plain-build schedules (result, snapshot, repeatability oracles)", runs=1_200_000, wall=1500, recheck=2000),
+                              dict(name="race-build schedules (race detector armed, sync-ignored hand-off)", runs=200_000, wall=1500, recheck=500, race=True),
                               dict(name="race-build cold starts: 8 runs per short-lived process, concurrent phase first (first-use races of lazily initialised shared state)",
                                    runs=48_000, wall=1500, recheck=200, race=True, chunk=8, args=["-sim.order", "conc-first"])],
                   "minimise_wall": 180},
@@ -109,7 +109,7 @@ PROPS = {
                      "fault kinds: none are injected in this check; the explored space is the schedule"],
     ),
     "C05": one(
-        12_000, 700_000,
+        12_000, 400_000,
         anchor_files=["tokenizers/generic/SymbolNode.go", "tokenizers/AbstractTokenizer.go", "mustache/tokenizers/MustacheTokenizer.go",
                       "calculator/parsers/ExpressionParser.go", "calculator/ExpressionCalculator.go", "mustache/parsers/MustacheParser.go"],
         rule="A case is a set of 1-3 reused instances (generic / expression / CSV / mustache tokenizer, expression parser, mustache parser, "
